@@ -175,9 +175,37 @@ fn referenced(t: &WTable) -> Vec<usize> {
     v
 }
 
+/// May the writer refuse to encode pointer value `v` with encoding byte `e`? It may when the
+/// application is not absolute / pc-relative, the format is not one of the nine value formats,
+/// or the value (pc-relative: the displacement from some position in the first 1 KiB of the
+/// section, where all generated entries live) does not fit the format's width and signedness.
+/// Everything else is encodable and must be accepted.
+fn ptr_may_refuse(e: u8, v: u64, asz: u8) -> bool {
+    let (format, app) = (e & 0x0f, e & 0x70);
+    if app != 0x00 && app != 0x10 {
+        return true;
+    }
+    let fits = |x: u64| -> bool {
+        let s = x as i64;
+        match format {
+            0x00 => asz >= 8 || x < (1u64 << (8 * asz as u32)),
+            0x01 | 0x04 | 0x09 | 0x0c => true,
+            0x02 => x < (1 << 16),
+            0x03 => x < (1 << 32),
+            0x0a => (-(1i64 << 15)..(1i64 << 15)).contains(&s),
+            0x0b => (-(1i64 << 31)..(1i64 << 31)).contains(&s),
+            _ => false,
+        }
+    };
+    if app == 0 {
+        !fits(v)
+    } else {
+        (0..0x400u64).any(|pos| !fits(v.wrapping_sub(pos)))
+    }
+}
+
 fn verdict(t: &WTable, kind: Kind) -> Verdict {
     let mut v = Verdict::default();
-    let enc_refusable = |e: u8| !(e == 0);
     for &ci in &referenced(t) {
         let c = &t.cies[ci];
         if kind == Kind::EhFrame && c.version != 1 {
@@ -187,7 +215,7 @@ fn verdict(t: &WTable, kind: Kind) -> Verdict {
         if c.version == 1 && c.ra > 255 {
             v.may_refuse = true;
         }
-        if c.pers.map(|p| enc_refusable(p.0)).unwrap_or(false) || c.lsda_enc.map(enc_refusable).unwrap_or(false) || enc_refusable(c.fde_enc) {
+        if c.pers.map(|p| ptr_may_refuse(p.0, p.1, c.addr)).unwrap_or(false) {
             v.may_refuse = true;
         }
         if c.addr == 4 && c.pers.map(|p| p.1 > u32::MAX as u64).unwrap_or(false) {
@@ -211,6 +239,17 @@ fn verdict(t: &WTable, kind: Kind) -> Verdict {
         let c = &t.cies[f.cie];
         if c.addr == 4 && (f.addr > u32::MAX as u64 || f.lsda.map(|l| l > u32::MAX as u64).unwrap_or(false)) {
             v.may_refuse = true;
+        }
+        if kind == Kind::EhFrame {
+            // the FDE's address and its length are written with the CIE's FDE encoding, the LSDA with the LSDA encoding
+            if ptr_may_refuse(c.fde_enc, f.addr, c.addr) || ptr_may_refuse(c.fde_enc & 0x0f, f.len as u64, c.addr) {
+                v.may_refuse = true;
+            }
+            if let (Some(l), Some(e)) = (f.lsda, c.lsda_enc) {
+                if ptr_may_refuse(e, l, c.addr) {
+                    v.may_refuse = true;
+                }
+            }
         }
         let mut prev = 0u32;
         for (off, i) in &f.insns {
@@ -570,6 +609,62 @@ fn sub_cie_params(_tier: Tier) -> Sub {
     )
 }
 
+/// Every pointer format x application the writer knows (and some it must refuse), on each of
+/// the three pointer fields, with values on both sides of each format's range.
+fn sub_eh_pointers(_tier: Tier) -> Sub {
+    let mut encs: Vec<u8> = vec![];
+    for f in [0x00u8, 0x01, 0x02, 0x03, 0x04, 0x09, 0x0a, 0x0b, 0x0c] {
+        for app in [0x00u8, 0x10] {
+            encs.push(f | app);
+        }
+    }
+    // not encodable by the writer: other applications, unassigned formats
+    encs.extend_from_slice(&[0x23, 0x33, 0x43, 0x50, 0x05, 0x0f]);
+    let values: Vec<u64> = vec![0, 0x40, 0x7fff, 0x8000, 0x9000, 0xffff, 0x1_0000, 0x7fff_ffff, 0x8000_0000, 0xffff_ff00, 0xffff_ffff, 0x1_0000_0000, 0x7fff_ffff_ffff_ff00, 0xffff_ffff_ffff_ff00];
+    let ne = encs.len() as u64;
+    let nv = values.len() as u64;
+    let len = ne * nv * 4 * 2 * 2;
+    Sub::new(
+        "eh-pointer-encodings",
+        len,
+        "pointer encoding byte in {absptr, uleb128, udata2/4/8, sleb128, sdata2/4/8} x {absolute, pcrel} + {textrel, datarel, funcrel, aligned, formats 0x05/0x0f} x pointer value in {0,0x40,0x7fff,0x8000,0x9000,0xffff,2^16,2^31-1,2^31,2^32-256,2^32-1,2^32,2^63-256,2^64-256} x field {personality, personality with DW_EH_PE_indirect, LSDA, FDE address} x address size {4,8} x byte order; .eh_frame version 1: the table must be written and read back with the same pointers when the value fits the format (pc-relative: for every possible field position), and may only be refused (ValueTooLarge / UnsupportedPointerEncoding) otherwise",
+        move |ctx, i| {
+            let mut mx = Mix(i);
+            let big = mx.flag();
+            let addr = *mx.pick(&[4u8, 8]);
+            let role = mx.take(4);
+            let v = *mx.pick(&values);
+            let e = *mx.pick(&encs);
+            if addr == 4 && v > u32::MAX as u64 {
+                ctx.outcome("ehptr:value-wider-than-address-size");
+                return;
+            }
+            let mut c = WCie::new(1, false, addr, 1, -8);
+            c.insns = vec![WI::Cfa(7, 8)];
+            let mut f = WFde { cie: 0, addr: 0x1000, len: 0x20, lsda: None, insns: vec![(0, WI::Cfa(7, 16))] };
+            match role {
+                0 => c.pers = Some((e, v)),
+                1 => c.pers = Some((e | 0x80, v)),
+                2 => {
+                    c.lsda_enc = Some(e);
+                    f.lsda = Some(v);
+                }
+                _ => {
+                    c.fde_enc = e;
+                    f.addr = v;
+                }
+            }
+            let t = WTable { cies: vec![c], fdes: vec![f] };
+            ctx.nontriv(1);
+            ctx.outcome(if ptr_may_refuse(e, v, addr) { "ehptr:may-refuse" } else { "ehptr:must-accept" });
+            check_table(ctx, &t, Kind::EhFrame, big);
+            if ctx.want_sample() && crate::glue::sample_here(i, 97) {
+                ctx.sample(render_table(&t, Kind::EhFrame, big));
+            }
+        },
+    )
+}
+
 fn sub_ra(_tier: Tier) -> Sub {
     let ras = [0u16, 16, 127, 128, 255, 256, 16383, 16384, 65535];
     Sub::new(
@@ -876,8 +971,8 @@ pub fn def(_cli_tier: Tier) -> CheckDef {
             "an offset of i32::MIN with DAF -1 (factored value 2^31) may be written or rejected, but must not panic".into(),
             "padding clause: (size of the initial length field, 4 or 12) + length is a multiple of the address size (DWARF 5 6.4.1)".into(),
         ],
-        subs: vec![sub_cie_params(tier), sub_ra(tier), sub_sequences(tier), sub_advance(tier), sub_operands(tier), sub_factor_sweep(tier), sub_dedup(tier)],
-        required_outcomes: ["write:ok", "write:err-code-offset", "write:err-data-offset", "write:err-decreasing-offset", "write:refused", "readback:entries-ok", "rows:ok", "err:InvalidContext", "err:PopWithEmptyStack", "dedup:checked", "skipped:decreasing-under-debug-assertions"]
+        subs: vec![sub_cie_params(tier), sub_eh_pointers(tier), sub_ra(tier), sub_sequences(tier), sub_advance(tier), sub_operands(tier), sub_factor_sweep(tier), sub_dedup(tier)],
+        required_outcomes: ["write:ok", "write:err-code-offset", "write:err-data-offset", "write:err-decreasing-offset", "write:refused", "readback:entries-ok", "rows:ok", "err:InvalidContext", "err:PopWithEmptyStack", "dedup:checked", "skipped:decreasing-under-debug-assertions", "ehptr:must-accept", "ehptr:may-refuse"]
             .iter()
             .map(|s| s.to_string())
             .collect(),
